@@ -291,6 +291,13 @@ class Verdict:
         self.violations.append((path, no_input))
 
     def finish(self, level, coverage, assumptions):
+        # one line per listed open finding: the ones this run met first, then the ones whose witness is not
+        # part of this tier's inputs (they are listed, so they are announced; they suppress nothing)
+        for k in self.known:
+            if k["status"] == "open" and k.get("property", self.prop_id) == self.prop_id:
+                line = "KNOWN-FINDING: property=%s %s" % (self.prop_id, k["what"])
+                if line not in self.known_lines:
+                    self.known_lines.append(line + " [listed; not exercised by this run's inputs]")
         for l in self.known_lines:
             print(l)
         shown = set()
